@@ -1,5 +1,6 @@
 import CppUModel.Base.Proto
 import CppUModel.Model.Plugins
+import CppUModel.Model.PluginsTable
 import CppUModel.Spec.Plugins
 /-!
 Driver for C17: replays harness traces through the model of the pointer table and of the plugin
@@ -15,13 +16,26 @@ structure DState where
   flags : List (Nat × Bool) := [] -- enabled flag of every plugin object touched so far (default: enabled)
   chain : Chain := []
   store : Store := { mem := fun l => l, table := [] }
+  -- the same history on the array-level state, executed by the code REGENERATED from the current source
+  tab : Tab := Tab.init (fun l => l)
   pending : List (Loc × Val) := []   -- redirections collected for the next test body
+  pendingS : List (Loc × Val) := []  -- … for the setup() of the next single test
+  pendingT : List (Loc × Val) := []  -- … for its teardown()
   batch : List (String × List (Loc × Val) × String × String) := []   -- tests queued for `runall`
 
 def renderVal (v : Val) : String := if v < 1000 then s!"i{v}" else s!"v{v - 1000}"
 
 def renderMem (m : Loc → Val) : String :=
   "mem " ++ " ".intercalate ((List.range nLocs).map (fun l => renderVal (m l)))
+
+/-- the regenerated code (`Gen/PluginCode.lean`, run on the array-level state) and the hand-written list-level
+    model must have produced the same pointers and the same table, with no access outside `setlist` -/
+def codeAgrees (tab : Tab) (s : Store) : Bool :=
+  (List.range nLocs).all (fun l => tab.mem l == s.mem l) && (absT tab).table == s.table && !tab.oob
+
+def codeLines (tab : Tab) (s : Store) (c : Chain) : List String :=
+  (if codeAgrees tab s then [] else ["regenerated-table-code-differs-from-the-model"]) ++
+  (if runAllPreA c == runAllPre c && runAllPostA c == runAllPost c then [] else ["regenerated-chain-walk-differs-from-the-model"])
 
 def renderChain (c : Chain) : String :=
   if c.isEmpty then "chain -"
@@ -59,6 +73,14 @@ def bodyOf (outcome : String) (sets : List (Loc × Val)) : List Stmt :=
   if !setupPasses outcome then [Stmt.stop]
   else setsOf sets ++ (if allPass outcome then [] else [Stmt.stop])
 
+def endOf (o : String) : List Stmt := if o == "pass" then [] else [Stmt.stop]
+
+/-- the three phases of a single test: each carries out its redirections and then ends the way the script says -/
+def phasesOf (outcome : String) (sS sB sT : List (Loc × Val)) : Phases :=
+  { setup := setsOf sS ++ endOf (phases outcome).1,
+    body := setsOf sB ++ endOf (phases outcome).2.1,
+    teardown := setsOf sT ++ endOf (phases outcome).2.2 }
+
 /-- `i:<id>:<name>` / `r:<name>` / `-` -/
 def parseMut (flags : List (Nat × Bool)) (ws : List String) : Mut :=
   match ws with
@@ -87,17 +109,45 @@ def parseScripted (flags : List (Nat × Bool)) (outcome : String) (sets : List (
 def notSet (c : Chain) : Chain := c.filter (·.kind != .setPointer)
 
 /-- the registry loop, with the observation lines of every test -/
-def runBatch (flags : List (Nat × Bool)) (c : Chain) (s : Store) (k : Nat) :
-    List (String × List (Loc × Val) × String × String) → List String × Chain × Store
-  | [] => ([], c, s)
+def runBatch (flags : List (Nat × Bool)) (c : Chain) (s : Store) (tab : Tab) (k : Nat) :
+    List (String × List (Loc × Val) × String × String) → List String × Chain × Store × Tab
+  | [] => ([], c, s, tab)
   | (outcome, sets, bm, pm) :: rest =>
     let t := parseScripted flags outcome sets bm pm
     let r := runScripted c s t
     let pc := postChainAfterBody c (effectiveBodyMut s t)
+    let tab' := runTestA (hasActiveSetB pc) tab t.body
     let lines := [namesLine s!"t{k} pre" (runAllPre (notSet c)), namesLine s!"t{k} post" (runAllPost (notSet pc)),
-                  s!"t{k} done {r.1.done}"]
-    let more := runBatch flags r.2 r.1.store (k + 1) rest
+                  s!"t{k} done {r.1.done}"] ++ codeLines tab' r.1.store c
+    let more := runBatch flags r.2 r.1.store tab' (k + 1) rest
     (lines ++ more.1, more.2)
+
+/-! the command-line runner: `cli <n>` -/
+def cliId : Nat := 98
+
+def cliPass (c : Chain) (s : Store) (tab : Tab) :
+    List (String × List (Loc × Val) × String × String) → List (List String × List String × Nat) × Store × Tab
+  | [] => ([], s, tab)
+  | (outcome, sets, _, _) :: rest =>
+    let body := bodyOf outcome sets
+    let r := runTest c s body
+    let tab' := runTestA (hasActiveSetB c) tab body
+    let more := cliPass c r.store tab' rest
+    ((runAllPre (notSet c), runAllPost (notSet c), r.done) :: more.1, more.2)
+
+def cliReps (c : Chain) (batch : List (String × List (Loc × Val) × String × String)) :
+    Nat → Store → Tab → List (List (List String × List String × Nat)) × Store × Tab
+  | 0, s, tab => ([], s, tab)
+  | n + 1, s, tab =>
+    let p := cliPass c s tab batch
+    let more := cliReps c batch n p.2.1 p.2.2
+    (p.1 :: more.1, more.2)
+
+def cliLines (reps : List (List (List String × List String × Nat))) (ntests : Nat) : List String :=
+  (List.range ntests).flatMap (fun k =>
+    let rows := reps.filterMap (fun r => r[k]?)
+    [namesLine s!"t{k} pre" (rows.flatMap (·.1)), namesLine s!"t{k} post" (rows.flatMap (·.2.1)),
+     s!"t{k} done {(rows.map (·.2.2)).foldl (· + ·) 0}"])
 
 def modelStep (d : DState) (op : List String) (_obs : List (List String)) : DState × List String :=
   match op with
@@ -116,29 +166,55 @@ def modelStep (d : DState) (op : List String) (_obs : List (List String)) : DSta
     let c := regRemove name d.chain
     ({ d with chain := c }, chainLines c)
   | ["reset"] => ({ d with chain := reset d.chain }, chainLines [])
-  | ["newset", _] => ({ d with store := construct d.store }, [])
+  | ["newset", _] =>
+    ({ d with store := construct d.store, tab := constructA d.tab },
+     codeLines (constructA d.tab) (construct d.store) d.chain)
   | ["set", l, v] =>
     match l.toNat?, v.toNat? with
     | some l, some v => ({ d with pending := d.pending ++ [(l, 1000 + v)] }, [])
     | _, _ => (d, ["bad-op"])
+  | ["sset", l, v] =>
+    match l.toNat?, v.toNat? with
+    | some l, some v => ({ d with pendingS := d.pendingS ++ [(l, 1000 + v)] }, [])
+    | _, _ => (d, ["bad-op"])
+  | ["tset", l, v] =>
+    match l.toNat?, v.toNat? with
+    | some l, some v => ({ d with pendingT := d.pendingT ++ [(l, 1000 + v)] }, [])
+    | _, _ => (d, ["bad-op"])
   | ["test", outcome, bm, pm] =>
     ({ d with batch := d.batch ++ [(outcome, d.pending, bm, pm)], pending := [] }, [])
   | ["runall"] =>
-    let r := runBatch d.flags d.chain d.store 0 d.batch
-    ({ d with chain := r.2.1, store := r.2.2, batch := [] }, r.1 ++ chainLines r.2.1 ++ [renderMem r.2.2.mem])
+    let r := runBatch d.flags d.chain d.store d.tab 0 d.batch
+    ({ d with chain := r.2.1, store := r.2.2.1, tab := r.2.2.2, batch := [] },
+     r.1 ++ chainLines r.2.1 ++ [renderMem r.2.2.1.mem])
+  | ["cli", n] =>
+    match n.toNat? with
+    | some n =>
+      let c0 := install d.chain (cliPlugin cliId)
+      let r := cliReps c0 d.batch n (construct d.store) (constructA d.tab)
+      let c1 := regRemove Gen.Plugins.cliSetPointerName c0
+      -- the loop above and `runCli` (the function the theorems are about) must be the same thing
+      let m := runCli cliId d.chain d.store n (d.batch.map (fun b => bodyOf b.1 b.2.1))
+      let same := m.1 == c1 && (List.range nLocs).all (fun l => m.2.mem l == r.2.1.mem l) && m.2.table == r.2.1.table
+      ({ d with chain := c1, store := r.2.1, tab := r.2.2, batch := [] },
+       cliLines r.1 d.batch.length ++ chainLines c1 ++ [renderMem r.2.1.mem] ++ codeLines r.2.2 r.2.1 c0 ++
+       (if same then [] else ["driver-loop-differs-from-runCli"]))
+    | none => (d, ["bad-op"])
   | ["run", outcome, kind] =>
     let ss := d.pending
     let k := parseRunKind kind
-    let r := runTestKind k d.chain d.store (bodyOf outcome ss)
+    let ph := phasesOf outcome d.pendingS ss d.pendingT
+    let r := runTestKindP k d.chain d.store ph
     -- the SetPointerPlugin does not write to the order log (its pre action is empty)
     let logging := d.chain.filter (·.kind != .setPointer)
     let ran := k != .ignored
-    ({ d with store := r.store, pending := [] },
+    let tab' := if k == .normal || k == .ignoredRun then runTestPA (hasActiveSetB d.chain) d.tab ph else d.tab
+    ({ d with store := r.store, tab := tab', pending := [], pendingS := [], pendingT := [] },
      [namesLine "pre" (if ran then runAllPre logging else []),
       namesLine "post" (if ran then runAllPost logging else []), s!"done {r.done}",
       -- the parent of a separate-process run only learns pass / fail
       "result " ++ (if r.overflow && k != .separate then "overflow" else if r.failed then "fail" else "pass"),
-      renderMem r.store.mem])
+      renderMem r.store.mem] ++ codeLines tab' r.store d.chain)
   | [e, id] =>
     if e == "enable" || e == "disable" then
       match id.toNat? with
@@ -173,6 +249,8 @@ structure Shadow where
   now       : List String := (List.range nLocs).map (fun l => s!"i{l}")   -- pointer values after the last test
   pending   : Nat := 0                     -- redirections recorded and not yet undone
   script    : Nat := 0                     -- redirections collected for the next test body
+  scriptS   : Nat := 0                     -- … for the setup() of the next single test
+  scriptT   : Nat := 0                     -- … for its teardown()
   queue     : List (Nat × String × String) := []   -- queued tests: redirections, body change, post-action change
 
 def obsLine (tag : String) (obs : List (List String)) : Option (List String) :=
@@ -272,6 +350,53 @@ def specBatch (sh : Shadow) (o : Proto.Op) : Except String Shadow := do
     throw s!"after the run pointer {bad.headD 0} (and {bad.length - 1} more) does not hold the value from before the first redirection"
   return { sh with queue := [], now := mem }
 
+/-- several installed plugins carry the name that is being removed: outside the property; follow the
+    implementation, but nothing with another name may disappear and the order must be kept -/
+def specRemoveTolerant (sh : Shadow) (name : String) (o : Proto.Op) : Except String Shadow := do
+  let some got := obsLine "chain" o.obs | throw "no chain observation"
+  let gotIds := (dashList got).filterMap (fun w => (w.dropEnd 1).toString.toNat?)
+  let kept := sh.installed.filter (fun p => gotIds.contains p.id)
+  if kept.map (·.id) != gotIds then throw "remove reordered or invented plugins"
+  if (sh.installed.filter (fun p => p.name != name && !gotIds.contains p.id)).length > 0 then
+    throw s!"remove {name} removed a plugin with another name"
+  checkRegistryView { sh with installed := kept } o
+  return { sh with installed := kept }
+
+/-- `cli <n>`: the queued tests through `CommandLineTestRunner::runAllTestsMain`, `n` repetitions.  Demanded:
+    * the runner's own pointer plugin is freshly constructed (empty table), enabled and installed for the whole
+      run: EVERY test of every repetition leaves every pointer as it found it, so after the run the pointers
+      hold what they held before it — whatever was installed, enabled or left recorded before;
+    * every test of every repetition: pre actions seen by the enabled installed plugins, most recently installed
+      first, post actions in the exact reverse; the limit as for single tests with an empty table;
+    * afterwards the registry's chain is what it was: the runner removes exactly its own plugin (if an installed
+      plugin carries the runner's name the remove-exactly clause does not apply, see `specRemoveTolerant`). -/
+def specCli (sh : Shadow) (n : Nat) (o : Proto.Op) : Except String Shadow := do
+  let mut k := 0
+  let want := sh.enabledNames
+  for (nsets, _, _) in sh.queue do
+    let t := s!"t{k}"
+    let some pre := obsLine2 t "pre" o.obs | throw s!"no pre log of test {k}"
+    let some post := obsLine2 t "post" o.obs | throw s!"no post log of test {k}"
+    let some [done] := obsLine2 t "done" o.obs | throw s!"no done count of test {k}"
+    let some done := done.toNat? | throw "bad done count"
+    if dashList pre != (List.replicate n want).flatten then
+      throw s!"test {k} of the command-line run: pre actions seen by {dashList pre}, expected {n} times {want}"
+    if dashList post != (List.replicate n want.reverse).flatten then
+      throw s!"test {k} of the command-line run: post actions seen by {dashList post}, expected {n} times {want.reverse}"
+    if done != n * min nsets Gen.Plugins.maxSet then
+      throw s!"test {k} of the command-line run: {done} redirections carried out over {n} repetitions, {nsets} requested per run with an empty table"
+    k := k + 1
+  let sh' ← if sh.installed.any (·.name == Gen.Plugins.cliSetPointerName)
+    then specRemoveTolerant sh Gen.Plugins.cliSetPointerName o
+    else do
+      checkChain sh o
+      pure sh
+  let some mem := obsLine "mem" o.obs | throw "no mem"
+  if mem != sh.now then
+    let bad := (List.range nLocs).filter (fun i => mem[i]? != sh.now[i]?)
+    throw s!"after the command-line run pointer {bad.headD 0} (and {bad.length - 1} more) does not hold the value from before the run"
+  return { sh' with queue := [], pending := 0, baseline := mem, now := mem }
+
 def specStep (sh : Shadow) (o : Proto.Op) : Except String Shadow := do
   if o.obs.any (· == ["exception-escaped-the-runner"]) then
     throw "an exception left the runner although re-throwing is off: the post actions of that test were skipped and the tests after it did not run"
@@ -290,16 +415,7 @@ def specStep (sh : Shadow) (o : Proto.Op) : Except String Shadow := do
       checkChain sh' o
       return sh'
     else
-      -- several plugins carry the name: outside the property; follow the implementation, but
-      -- nothing with another name may disappear and the order must be kept
-      let some got := obsLine "chain" o.obs | throw "no chain observation"
-      let gotIds := (dashList got).filterMap (fun w => (w.dropEnd 1).toString.toNat?)
-      let kept := sh.installed.filter (fun p => gotIds.contains p.id)
-      if kept.map (·.id) != gotIds then throw "remove reordered or invented plugins"
-      if (sh.installed.filter (fun p => p.name != name && !gotIds.contains p.id)).length > 0 then
-        throw s!"remove {name} removed a plugin with another name"
-      checkRegistryView { sh with installed := kept } o
-      return { sh with installed := kept }
+      specRemoveTolerant sh name o
   | ["reset"] =>
     let sh' := { sh with installed := [] }
     checkChain sh' o
@@ -325,11 +441,16 @@ def specStep (sh : Shadow) (o : Proto.Op) : Except String Shadow := do
     -- without an active plugin are never undone, the pointers keep what they hold now
     return { sh with pending := 0, baseline := sh.now }
   | ["set", _, _] => return { sh with script := sh.script + 1 }
+  | ["sset", _, _] => return { sh with scriptS := sh.scriptS + 1 }
+  | ["tset", _, _] => return { sh with scriptT := sh.scriptT + 1 }
   | ["test", outcome, bm, pm] =>
     -- a test whose setup does not end normally has no body: no redirection, no change from the body
     let ran := setupPasses outcome
     return { sh with queue := sh.queue ++ [(if ran then sh.script else 0, if ran then bm else "-", pm)], script := 0 }
   | ["runall"] => specBatch sh o
+  | ["cli", n] =>
+    let some n := n.toNat? | throw "bad cli"
+    specCli sh n o
   | ["run", outcome, kind] =>
     let some pre := obsLine "pre" o.obs | throw "no pre log"
     let some post := obsLine "post" o.obs | throw "no post log"
@@ -343,28 +464,36 @@ def specStep (sh : Shadow) (o : Proto.Op) : Except String Shadow := do
       if done != 0 then throw "the body of an ignored test ran"
       if result != "pass" then throw "an ignored test was reported as failed"
       if mem != sh.now then throw "an ignored test changed the pointers"
-      return { sh with script := 0 }
+      return { sh with script := 0, scriptS := 0, scriptT := 0 }
     -- order of the plugin actions
     let want := sh.enabledNames
     if dashList pre != want then throw s!"pre actions seen by {dashList pre}, expected {want} (installation-reversed, enabled only)"
     if dashList post != want.reverse then throw s!"post actions seen by {dashList post}, expected {want.reverse} (reverse of pre)"
-    -- the limit
+    -- the limit: the phases fill the table one after the other; the body runs only after a setup() that ended
+    -- normally (and was not refused a redirection), teardown() always; a refused redirection ends its phase
     let room := Gen.Plugins.maxSet - sh.pending
-    let nsets := if setupPasses outcome then sh.script else 0
-    if nsets ≤ room then
-      if done != nsets then throw s!"{done} of {nsets} redirections carried out although the table had room for {room}"
+    let nS := sh.scriptS
+    let doneS := min nS room
+    let setupOk := decide (nS ≤ room) && setupPasses outcome
+    let nB := if setupOk then sh.script else 0
+    let doneB := min nB (room - doneS)
+    let nT := sh.scriptT
+    let doneT := min nT (room - doneS - doneB)
+    let over := decide (nS > room) || decide (nB > room - doneS) || decide (nT > room - doneS - doneB)
+    if done != doneS + doneB + doneT then
+      throw s!"{done} redirections carried out, expected {doneS + doneB + doneT} (setup {nS}, body {nB}, teardown {nT} requested; the table had room for {room})"
+    if !over then
       if result == "overflow" then throw "table overflow reported below the limit"
       -- a failure reported by a pre action fails the test (and stops nothing, see `done` above)
       if (result == "pass") != (allPass outcome && !sh.preFailure) then throw s!"test with outcome {outcome} reported as {result}"
     else
-      if done != room then throw s!"{done} redirections carried out, the table had room for {room}"
       -- (the parent of a separate-process run cannot see why the child failed)
       if result != "overflow" && !(kind == "sep" && result == "fail") then
-        throw s!"{nsets} redirections with room for {room}: the test did not fail with the table-limit failure"
+        throw s!"more redirections than the table had room for ({room}): the test did not fail with the table-limit failure"
     if kind == "sep" then
       -- everything happened in the child: the caller's pointers and table are as before
       if mem != sh.now then throw "a test run in a separate process changed the caller's pointers"
-      return { sh with script := 0 }
+      return { sh with script := 0, scriptS := 0, scriptT := 0 }
     -- restoring
     if sh.activeSet then
       if mem != sh.baseline then
@@ -376,10 +505,10 @@ def specStep (sh : Shadow) (o : Proto.Op) : Except String Shadow := do
           -- entries of earlier tests that ran without an active plugin are still recorded: all of
           -- them are undone now, back to the last point where the table was empty
           throw s!"after the post actions pointer {bad.headD 0} (and {bad.length - 1} more) does not hold the value from the last point where the table was empty"
-      return { sh with pending := 0, script := 0, now := mem }
+      return { sh with pending := 0, script := 0, scriptS := 0, scriptT := 0, now := mem }
     else
       -- no active SetPointerPlugin: nothing is demanded of the pointer values; the entries stay recorded
-      return { sh with pending := sh.pending + done, script := 0, now := mem }
+      return { sh with pending := sh.pending + done, script := 0, scriptS := 0, scriptT := 0, now := mem }
   | _ => throw "bad-op"
 
 def specAll (ops : List Proto.Op) : Option String :=
